@@ -404,14 +404,15 @@ def dispatch(case):
     class _Timeout(Exception): pass
     def on_alarm(signum, frame): raise _Timeout()
     old = signal.signal(signal.SIGALRM, on_alarm); oldp = signal.signal(signal.SIGPROF, on_alarm)
-    signal.alarm(WALL_S); signal.setitimer(signal.ITIMER_PROF, BUDGET_S)
+    budget = case.get("budget_s", BUDGET_S)
+    signal.alarm(WALL_S); signal.setitimer(signal.ITIMER_PROF, budget)
     try:
         return _dispatch(case)
     except _Timeout:
         sys.setprofile(None)
         import gc; gc.enable()
         return {"nontrivial": True, "outcome": "timeout", "violations": [{"kind": f"{case.get('shape', case['kind'])}:did-not-finish",
-                "detail": f"the case did not finish within {BUDGET_S} s of processor time (it takes seconds when backward is linear in the graph): {case}"}]}
+                "detail": f"the case did not finish within {budget} s of processor time (it takes seconds when backward is linear in the graph): {case}"}]}
     finally:
         signal.setitimer(signal.ITIMER_PROF, 0); signal.alarm(0); signal.signal(signal.SIGALRM, old); signal.signal(signal.SIGPROF, oldp)
 
@@ -436,6 +437,9 @@ def all_cases(tier):
             out.append({"kind": "cost", "shape": shape, "n": n})
     for shape in ("chain", "chain_retain_each", "chain_built_under_retain_grads", "chain_from_many_leaves", "ladder", "sum_over_detached_constants"):
         out.append({"kind": "cputime", "shape": shape, "n": 5000 if shape not in ("ladder", "sum_over_detached_constants") else 2500})
+    # graphs of 10^5 nodes: work that is linear per node but touches a container of all nodes (a list shifted on every insertion)
+    # stays below the margins at 20 000 nodes and shows at 160 000
+    out.append({"kind": "cputime", "shape": "chain_from_many_leaves", "n": 40000, "budget_s": 600})     # ~35 s of CPU on the unchanged tree
     for shape, n in (("chain", 1500), ("chain", 6000), ("tree", 3000)):
         out.append({"kind": "heap", "shape": shape, "n": n})
     return out + repeat_cases()
